@@ -21,6 +21,15 @@ pub fn guard<F: FnOnce() -> String>(f: F) -> String {
     }
 }
 
+pub fn watchdog<F: FnOnce() -> String + Send + 'static>(f: F) -> String {
+    let (tx, rx) = std::sync::mpsc::channel();
+    std::thread::spawn(move || { let _ = tx.send(f()); });
+    match rx.recv_timeout(std::time::Duration::from_secs(4)) {
+        Ok(s) => s,
+        Err(_) => "hang".to_string(),
+    }
+}
+
 pub fn silence_panics() {
     panic::set_hook(Box::new(|_| {}));
 }
@@ -75,6 +84,34 @@ impl<'a> Arg for std::borrow::Cow<'a, str> {
     fn parse(arg: &str) -> Self { std::borrow::Cow::Owned(<String as Arg>::parse(arg)) }
     fn show(&self) -> String { self.to_string().show() }
 }
+
+pub trait Same { fn same(&self, o: &Self) -> bool; }
+macro_rules! same_eq { ($($t:ty),*) => { $( impl Same for $t { fn same(&self, o: &Self) -> bool { self == o } } )* } }
+same_eq!(u8, u16, u32, u64, u128, usize, i8, i16, i32, i64, i128, isize, String, Vec<i32>);
+impl Same for f32 { fn same(&self, o: &Self) -> bool { self.to_bits() == o.to_bits() } }
+impl Same for f64 { fn same(&self, o: &Self) -> bool { self.to_bits() == o.to_bits() } }
+
+pub fn hash_of<T: std::hash::Hash + ?Sized>(t: &T) -> u64 {
+    use std::hash::Hasher;
+    let mut h = std::collections::hash_map::DefaultHasher::new();
+    t.hash(&mut h);
+    h.finish()
+}
+pub fn ord_s(o: Option<std::cmp::Ordering>) -> &'static str {
+    match o { Some(std::cmp::Ordering::Less) => "L", Some(std::cmp::Ordering::Equal) => "E", Some(std::cmp::Ordering::Greater) => "G", None => "N" }
+}
+/// "(p (i 3) (i 5))" -> ("(i 3)", "(i 5)")
+pub fn pair_args(arg: &str) -> (String, String) {
+    let a = arg.trim();
+    let a = &a[2..a.len() - 1].trim();
+    let mut depth = 0i32;
+    for (i, ch) in a.char_indices() {
+        if ch == '(' { depth += 1; }
+        if ch == ')' { depth -= 1; if depth == 0 { return (a[..=i].to_string(), a[i + 1..].trim().to_string()); } }
+    }
+    panic!("bad pair arg");
+}
+pub fn b(x: bool) -> &'static str { if x { "1" } else { "0" } }
 
 pub fn ok<T: Arg>(v: T) -> String { format!("ok {}", v.show()) }
 pub fn bytes_arg(arg: &str) -> Vec<u8> { inner(arg).split_whitespace().map(|c| c.parse::<u8>().unwrap()).collect() }
